@@ -1,5 +1,5 @@
 """C05 - capture groups bind consistently across a pattern."""
-from jv import drive, model as M, rulegen as RG
+from jv import drive, model as M, real, rulegen as RG
 
 LEVEL = "exploration"
 RULE = ("S-syn listings with planted duplicates (whole instructions copied to a later position; an operand copied into a "
@@ -19,10 +19,10 @@ def feat(rng):
     r = rng.random()
     if r < 0.15:   # other constructs (items with and without operands carrying times, groups, $not) between definitions and uses:
         #            any stray capturing parenthesis they emitted would shift the numbers of the judged back-references
-        return RG.Feat(operands=0.55, ocaps=0.45, icaps=0.15, times_item=0.45, groups=0.25, nots=0.2, ogroups=0.2, group_times=0.4,
+        return RG.Feat(operands=0.55, ocaps=0.45, icaps=0.15, times_item=0.45, groups=0.25, nots=0.2, ogroups=0.2, group_times=0.4, hexh=0.3, deref=0.3,
                        max_depth=1, max_spine=rng.choice([3, 4, 5, 6]))
     if r < 0.45:   # operand captures
-        return RG.Feat(operands=0.9, ocaps=0.6, groups=0.15, nots=0.1, ogroups=0.15, times_item=0.1, group_times=0.2,
+        return RG.Feat(operands=0.9, ocaps=0.6, groups=0.15, nots=0.1, ogroups=0.15, times_item=0.1, group_times=0.2, hexh=0.15,
                        max_depth=1, max_spine=rng.choice([2, 3, 4, 6]))
     if r < 0.62:   # instruction captures
         return RG.Feat(operands=0.5, icaps=0.5, groups=0.15, nots=0.1, max_depth=1, max_spine=rng.choice([2, 3, 4, 5]))
@@ -57,9 +57,26 @@ def classify(doc, prep, o):
     return None
 
 
+def twice(driver, doc, text, prep, o):
+    """A Yaml2Regex object asked twice must produce the same matcher (the capture table is per compilation)."""
+    ctx = driver.ctx
+    if o.status != "ok":
+        return
+    try:
+        y = real.y2r.Yaml2Regex(driver.ws.path("rule.yaml"))
+        r1, r2 = y.produce_regex(), y.produce_regex()
+    except Exception as e:  # noqa: BLE001
+        ctx.disagreement({"rule": text, "listing": prep.text, "sinsts": []}, f"second produce_regex() on the same Yaml2Regex object raised {type(e).__name__}: {e}")
+        return
+    ctx.ran(2)
+    ctx.event("same_object_compiled_twice")
+    if r1 != r2 or r1 != o.regex:
+        ctx.disagreement({"rule": text, "listing": prep.text, "sinsts": []}, f"produce_regex() differs between calls on one object: {r1[:150]!r} vs {r2[:150]!r}")
+
+
 def run_shard(ctx):
     d = drive.Driver(ctx, feat, flags="random", styles=("tiny", "tiny", "dups", "regs"), quirks=QUIRKS, classify=classify,
-                     accept=reuses_capture, interesting=reuses_capture)
+                     accept=reuses_capture, interesting=reuses_capture, extra=twice)
     d.loop(3500, 300000)
 
 
